@@ -337,14 +337,14 @@ func SortedKeys[V any](mp map[string]V) []string {
 // offered by the planner, with generated tuples; the generic generator reaches
 // these shapes only rarely.
 func FamilyWorld(t *rapid.T, o Opts) World {
-	return familyWorld(t, o, rapid.IntRange(0, 9).Draw(t, "family"))
+	return familyWorld(t, o, rapid.IntRange(0, 10).Draw(t, "family"))
 }
 
 // CycleWorld draws a world from the families whose relations are mutually
 // recursive (6: through a TTU, 7: through usersets); with the few object ids of
 // the generator, cycles in the stored tuples are the common case.
 func CycleWorld(t *rapid.T, o Opts) World {
-	fam := []int{6, 6, 7, 7, 2, 5, 3}[rapid.IntRange(0, 6).Draw(t, "cycleFamily")]
+	fam := []int{6, 6, 7, 7, 2, 5, 3, 10}[rapid.IntRange(0, 7).Draw(t, "cycleFamily")]
 	w := familyWorld(t, o, fam)
 	if chance(t, "cycleRandomTuples", 25) {
 		return w
@@ -381,6 +381,9 @@ func CycleWorld(t *rapid.T, o Opts) World {
 				link("link", 40, gi, "parent", gj)
 			case 3:
 				link("link", 35, gi, "parent", gj)
+			case 10:
+				link("link", 25, gi, "parent", gj)
+				link("link00", 25, gi, "r0", gj+"#r0")
 			case 7:
 				link("link01", 30, gi, "r0", gj+"#r1")
 				link("link10", 30, gi, "r1", gj+"#r0")
@@ -469,6 +472,10 @@ func familyWorld(t *rapid.T, o Opts, family int) World {
 				{Name: "parent", Rewrite: this(), Restr: []m.Restriction{{Type: "group"}}},
 				{Name: "r0", Rewrite: this(), Restr: []m.Restriction{{Type: "group", Rel: "r2"}}},
 				{Name: "r1", Rewrite: &m.Rewrite{Kind: m.TTU, Tupleset: "parent", Rel: "r2"}}}})
+	case 10: // one relation recursive through a userset AND through a tuple-to-userset
+		types = append(types, m.TypeDef{Name: "folder", Relations: []m.Relation{
+			{Name: "parent", Rewrite: this(), Restr: []m.Restriction{{Type: "folder"}}},
+			{Name: "r0", Rewrite: &m.Rewrite{Kind: m.Union, Children: []*m.Rewrite{this(), {Kind: m.TTU, Tupleset: "parent", Rel: "r0"}}}, Restr: append([]m.Restriction{{Type: "folder", Rel: "r0"}}, userRestr...)}}})
 	case 9: // TTU / userset over parent types of different weight: one reaches users directly, the other only through a userset
 		types = append(types,
 			m.TypeDef{Name: "group", Relations: []m.Relation{{Name: "r0", Rewrite: this(), Restr: userRestr}}},
